@@ -141,6 +141,9 @@ FsUnlink(n) == /\ Tick /\ present[n] > 0
 FsWrite(n)  == /\ Tick /\ present[n] > 0
                /\ LET r == Raise(notes, actq, VnFds(present[n]), "write") IN notes' = r.notes /\ actq' = r.actq
                /\ UNCHANGED <<present, wdT, byUser, seen, open, nextFd, closed, kqOpen, creates, dup, atAdd, userAdded, inc>>
+FsChmod(n)  == /\ Tick /\ present[n] > 0
+               /\ LET r == Raise(notes, actq, VnFds(present[n]), "attrib") IN notes' = r.notes /\ actq' = r.actq
+               /\ UNCHANGED <<present, wdT, byUser, seen, open, nextFd, closed, kqOpen, creates, dup, atAdd, userAdded, inc>>
 \* mv D/n D/m: the directory first, then the moved vnode (rename), then the vnode that lost its name (delete)
 FsRename(n, m) ==
                /\ USER_RENAMES /\ Tick /\ n # m /\ present[n] > 0
@@ -167,7 +170,8 @@ Handle ==
                LET r == RemoveRows(row.path, wdT, open, byUser, seen, FALSE)
                    n == IF \E q \in Names : EntryPath(q) = row.path THEN CHOOSE q \in Names : EntryPath(q) = row.path ELSE ""
                    \* only after a Remove: os.Lstat(path) succeeds: sendCreateIfNew
-                   back == n # "" /\ ("delete" \in fl \/ RECHECK_ON_RENAME) /\ present[n] > 0
+                   \* (D9: also after a Rename, if the directory the entry lives in is watched)
+                   back == n # "" /\ ("delete" \in fl \/ (RECHECK_ON_RENAME /\ Watching("D"))) /\ present[n] > 0
                    w2 == IF back THEN WatchAll({n}, r.wd, r.open, nextFd) ELSE [wd |-> r.wd, open |-> r.open, next |-> nextFd] IN
                /\ wdT' = w2.wd /\ open' = w2.open /\ nextFd' = w2.next /\ byUser' = r.byUser
                /\ seen' = IF back THEN r.seen \cup {row.path} ELSE r.seen
@@ -191,7 +195,7 @@ Handle ==
                /\ UNCHANGED <<wdT, byUser, seen, open, nextFd, creates, dup, userAdded>>
   /\ UNCHANGED <<present, closed, kqOpen, atAdd, inc, steps>>
 
-Next == (\E sp \in Spellings : Add(sp) \/ RemoveWatch(sp)) \/ Close \/ (\E n \in Names : FsCreate(n) \/ FsUnlink(n) \/ FsWrite(n))
+Next == (\E sp \in Spellings : Add(sp) \/ RemoveWatch(sp)) \/ Close \/ (\E n \in Names : FsCreate(n) \/ FsUnlink(n) \/ FsWrite(n) \/ FsChmod(n))
         \/ (\E n, m \in Names : FsRename(n, m)) \/ Handle
 Spec == Init /\ [][Next]_vars
 
